@@ -213,12 +213,84 @@ func genPoolSrc(repo string) (string, error) {
 		bad("ping-pong GetActiveClient: the Requests().CanCreate() test is no longer the first step")
 	}
 
+	// ---- xprotocol multiplex pool
+	fset3, f3, err := ParseGoFile(repo, "pkg/stream/xprotocol/connpool_multiplex.go")
+	if err != nil {
+		return "", err
+	}
+	mxFlag, mxOwn := false, false
+	if fd := FindFunc(f3, "activeClientMultiplex", "OnDestroyStream"); fd == nil {
+		bad("multiplex OnDestroyStream not found")
+	} else {
+		n := 0
+		for _, st := range fd.Body.List {
+			is, isIf := st.(*ast.IfStmt)
+			if !isIf || !containsCall(is.Body, "Close") {
+				continue
+			}
+			n++
+			switch c := exprStr(fset3, is.Cond); c {
+			case "atomic.LoadUint32(&ac.goaway)==1&&ac.codecClient.ActiveRequestsNum()==0":
+				mxFlag = true
+			case "atomic.LoadUint32(&ac.state)==GoAway&&ac.codecClient.ActiveRequestsNum()==0":
+				mxFlag = false
+			default:
+				bad("multiplex OnDestroyStream: unrecognised drain condition %q", c)
+			}
+		}
+		if n != 1 {
+			bad("multiplex OnDestroyStream: %d closing branches", n)
+		}
+	}
+	if fd := FindFunc(f3, "activeClientMultiplex", "OnGoAway"); fd == nil {
+		bad("multiplex OnGoAway not found")
+	} else if mxFlag && !strings.Contains(exprStr(fset3, fd.Body), "atomic.StoreUint32(&ac.goaway,1)") {
+		bad("multiplex OnGoAway does not set the goaway flag that OnDestroyStream reads")
+	}
+	if fd := FindFunc(f3, "poolMultiplex", "onConnectionEvent"); fd == nil {
+		bad("multiplex onConnectionEvent not found")
+	} else {
+		n := 0
+		ast.Inspect(fd.Body, func(x ast.Node) bool {
+			is, isIf := x.(*ast.IfStmt)
+			if !isIf {
+				return true
+			}
+			direct := false
+			for _, st := range is.Body.List {
+				if es, ok := st.(*ast.ExprStmt); ok && containsCall(es, "Delete") {
+					direct = true
+				}
+			}
+			nested := !direct && containsCall(is.Body, "Delete")
+			c := exprStr(fset3, is.Cond)
+			switch {
+			case direct && strings.HasSuffix(c, "ok&&v==ac"):
+				n++
+				mxOwn = true
+			case nested && c == "atomic.LoadUint32(&ac.state)!=GoAway":
+				n++
+				mxOwn = false
+			case direct && c != "atomic.LoadUint32(&ac.state)!=GoAway":
+				bad("multiplex onConnectionEvent: unrecognised condition around Delete: %q", c)
+			case direct:
+				n++
+				mxOwn = false
+			}
+			return true
+		})
+		if n != 1 {
+			bad("multiplex onConnectionEvent: %d recognised Delete sites", n)
+		}
+	}
+
 	var b strings.Builder
-	b.WriteString("From MV Require Import Model.Pool.\n")
+	b.WriteString("From MV Require Import Model.Pool Model.PoolMx.\n")
 	for _, n := range notes {
 		b.WriteString("(* " + strings.ReplaceAll(n, "*)", "* )") + " *)\n")
 	}
 	fmt.Fprintf(&b, "Definition pool_src_switches : switches := mkSw %v %v %v %v.\n", checkFirst, httpResetAny, ppClose, ppResetAny)
+	fmt.Fprintf(&b, "Definition poolmx_src_switches : mx_switches := mkMxSw %v %v.\n", mxFlag, mxOwn)
 	fmt.Fprintf(&b, "Definition PoolSrc_translator_ok := %v.\n", ok)
 	return b.String(), nil
 }
